@@ -300,7 +300,7 @@ var chainKinds = func() []string {
 	var ks []string
 	for _, k := range mops.Kinds {
 		switch {
-		case k == "fresh" || k == "prim" || k == "scan":
+		case k == "fresh" || k == "prim" || k == "scan" || k == "scan2" || k == "fresh-line" || k == "prim2":
 		case len(k) > 6 && k[:6] == "export":
 		default:
 			ks = append(ks, k)
@@ -327,11 +327,9 @@ func genChain(t *rapid.T) ChainCase {
 	}
 	c.Ops = rapid.SliceOfN(rapid.Custom(func(t *rapid.T) ChainOp {
 		op := mops.Gen(t)
-		for op.K == "fresh" || op.K == "prim" || op.K == "scan" || (len(op.K) > 6 && op.K[:6] == "export") {
+		for op.K == "fresh" || op.K == "prim" || op.K == "scan" || op.K == "scan2" || op.K == "fresh-line" || op.K == "prim2" || (len(op.K) > 6 && op.K[:6] == "export") {
 			op.K = rapid.SampledFrom(chainKinds).Draw(t, "kind2")
-			if len(op.P) == 0 {
-				op.P = []float64{0.5, 1, -1, 0.25}
-			}
+			mops.Fill(t, &op)
 		}
 		return ChainOp{Op: op, Try: rapid.IntRange(0, 6).Draw(t, "try") == 0}
 	}), 1, 8).Draw(t, "ops")
